@@ -435,8 +435,9 @@ class World(object):
         """The simulated server's permessage-deflate inflater for client messages (window from the scenario)."""
         import zlib
         z = self.cur.get('srv_inflater')
-        if z is None or self.sc.get('peer_client_no_takeover'):
-            z = self.cur['srv_inflater'] = zlib.decompressobj(-int(self.sc.get('peer_client_wbits', 15)))
+        peer = self.sc.get('peer') or {}
+        if z is None or peer.get('c_nct') or self.sc.get('peer_client_no_takeover'):
+            z = self.cur['srv_inflater'] = zlib.decompressobj(-int(peer.get('cwb', self.sc.get('peer_client_wbits', 15))))
         try:
             return z.decompress(payload + b'\x00\x00\xff\xff')
         except zlib.error:
@@ -447,8 +448,9 @@ class World(object):
         one context per connection (context takeover)."""
         import zlib
         z = self.cur.get('srv_deflater')
-        if z is None:
-            z = self.cur['srv_deflater'] = zlib.compressobj(zlib.Z_DEFAULT_COMPRESSION, zlib.DEFLATED, -15)
+        peer = self.sc.get('peer') or {}
+        if z is None or peer.get('s_nct'):
+            z = self.cur['srv_deflater'] = zlib.compressobj(zlib.Z_DEFAULT_COMPRESSION, zlib.DEFLATED, -max(9, int(peer.get('swb', 15))))
         data = z.compress(payload) + z.flush(zlib.Z_SYNC_FLUSH)
         return data[:-4]
 
@@ -842,8 +844,10 @@ def do_call(world, ws, call, at):
         r['reason'] = codec.pv(reason)
     elif name in ('send_text',):
         r['pl'] = codec.pv(args[0].encode('utf-8') if isinstance(args[0], str) else bytes(args[0]))
+        r['cflag'] = True if len(args) < 2 else bool(args[1])
     elif name in ('send_binary', 'send_ping', 'send_pong'):
         r['pl'] = codec.pv(bytes(args[0]) if args else b'')
+        r['cflag'] = True if len(args) < 2 else bool(args[1])
     world.rec(r)
     return r
 
